@@ -216,6 +216,7 @@ Emit == go =>
                            tags |-> <<>>, nt |-> TRUE]))
     [] C.k = "rt" ->
          PrintT(ToJson([kind |-> "session", props |-> <<(IF Fam = "roundtrip" THEN "C06" ELSE "C19"), "C11">>, steps |-> RtSteps(C.kind, C.n), nt |-> TRUE,
+                        relcb |-> (Fam = "roundtrip"),
                         expect |-> [i \in 1..Len(RtObs) |-> [kind |-> RtObs[i].kind, err |-> RtObs[i].err, bytes |-> RtObs[i].bytes, cb |-> RtObs[i].cb,
                                                             ret |-> RtObs[i].ret, val |-> (IF i + 4 > Len(RtObs) THEN RtObs[i].val ELSE <<>>),
                                                             noval |-> (i + 4 <= Len(RtObs)), judge |-> TRUE, slotfree |-> TRUE, pinerr |-> FALSE]]]))
